@@ -305,15 +305,7 @@ func partial(env Env, n ast.IsNode) (ast.IsNode, error) {
 			},
 		)
 	case ast.NodeTypeIsIn:
-		return tryPartial(env,
-			[]ast.IsNode{v.Left, v.Entity},
-			func(values []types.Value) Evaler {
-				return newIsInEval(newLiteralEval(values[0]), v.EntityType, newLiteralEval(values[1]))
-			},
-			func(nodes []ast.IsNode) ast.IsNode {
-				return ast.NodeTypeIsIn{NodeTypeIs: ast.NodeTypeIs{Left: nodes[0], EntityType: v.EntityType}, Entity: nodes[1]}
-			},
-		)
+		return partialIsIn(env, v)
 
 	case ast.NodeTypeExtensionCall:
 		nodes := make([]ast.IsNode, len(v.Args))
@@ -478,6 +470,33 @@ func partialIfThenElse(env Env, v ast.NodeTypeIfThenElse) (ast.IsNode, error) {
 		elseNode = extError(elseErr)
 	}
 	return ast.NodeTypeIfThenElse{If: ifNode, Then: thenNode, Else: elseNode}, nil
+}
+
+// partialIsIn treats `e is T in x` as `e is T && e in x`: x is not evaluated when the type
+// test fails, and while the type test is undecided the original expression is kept.
+func partialIsIn(env Env, v ast.NodeTypeIsIn) (ast.IsNode, error) {
+	left, err := partial(env, v.Left)
+	if errors.Is(err, errVariable) {
+		return v, nil
+	} else if err != nil {
+		return nil, err
+	}
+	lv, ok := left.(ast.NodeValue)
+	if !ok {
+		return v, nil
+	}
+	if ent, ok := lv.Value.(types.EntityUID); ok && ent.Type != v.EntityType {
+		return ast.NodeValue{Value: types.False}, nil
+	}
+	return tryPartial(env,
+		[]ast.IsNode{v.Left, v.Entity},
+		func(values []types.Value) Evaler {
+			return newIsInEval(newLiteralEval(values[0]), v.EntityType, newLiteralEval(values[1]))
+		},
+		func(nodes []ast.IsNode) ast.IsNode {
+			return ast.NodeTypeIsIn{NodeTypeIs: ast.NodeTypeIs{Left: nodes[0], EntityType: v.EntityType}, Entity: nodes[1]}
+		},
+	)
 }
 
 func partialAnd(env Env, v ast.NodeTypeAnd) (ast.IsNode, error) {
